@@ -116,7 +116,16 @@ func c17Batch(r *vc.Run, bi int, ver string, n int) {
 	defer e.Close()
 	rnd := vc.NewRand(r.Seed, "c17-"+ver)
 	for i := 0; i < n; i++ {
-		c := c17Gen(rnd, fmt.Sprintf("x%d_%04d", bi, i), ver, e.ch2 != nil)
+		// every twelfth case and its successor form a pair on one pooled connection: a phase one that fails at XA END /
+		// XA PREPARE (rolled back, no phase two), directly followed by a branch whose statement fails
+		force := ""
+		switch i % 12 {
+		case 10:
+			force = []string{"db-error@XA_PREPARE", "db-error@XA_END"}[(i/12)%2]
+		case 11:
+			force = "db-error@DML"
+		}
+		c := c17Gen(rnd, fmt.Sprintf("x%d_%04d", bi, i), ver, e.ch2 != nil, force)
 		if !c17Run(r, e, c) {
 			// the client died: restart it so that the remaining cases run
 			e.Close()
@@ -129,7 +138,7 @@ func c17Batch(r *vc.Run, bi int, ver string, n int) {
 	}
 }
 
-func c17Gen(r *vc.Rand, name, ver string, hasSecond bool) *c17Case {
+func c17Gen(r *vc.Rand, name, ver string, hasSecond bool, forceFault string) *c17Case {
 	c := &c17Case{Name: name, Version: ver, Feat: map[string]string{}}
 	seq := 0
 	ng := 1
@@ -172,6 +181,9 @@ func c17Gen(r *vc.Rand, name, ver string, hasSecond bool) *c17Case {
 		c.Fault = "register-refused"
 	case 1, 2, 3:
 		c.Fault = []string{"db-error", "drop-before", "drop-after"}[r.Intn(3)] + "@" + []string{"XA_START", "DML", "XA_END", "XA_PREPARE"}[r.Intn(4)]
+	}
+	if forceFault != "" {
+		c.Fault = forceFault
 	}
 	c.P2On = "holder"
 	// on servers that make the client keep the phase-one connection, a kept connection is only given up after the
